@@ -3,7 +3,7 @@
    RedirGuards): whatever happens inside, afterwards the table is the one
    before - provided nothing in the body is meant to persist (exec, ulimit). *)
 From Yv Require Import Common.Base C09.Kernel C09.Model C09.Spec
-  C09.ProofsTab C09.ProofsList C09.ProofsVal C09.ProofsSpec.
+  C09.ProofsTab C09.ProofsList C09.ProofsVal C09.ProofsSpec C09.ProofsOwn C09.ProofsPipe.
 
 Local Open Scope N_scope.
 
@@ -11,14 +11,22 @@ Local Open Scope N_scope.
 Lemma item_ind' (P : item -> Prop) :
   (forall c, P (ICmd c)) ->
   (forall k rs body, Forall P body -> P (IGroup k rs body)) ->
+  (forall via rs p body, Forall P body -> P (IDot via rs p body)) ->
+  (forall c, P (ISubst c)) ->
+  (forall n, P (IPipe n)) ->
+  (forall p, P (IStartup p)) ->
   (forall l, P (ILimit l)) ->
   (forall b, P (INoclobber b)) ->
   forall i, P i.
 Proof.
-  intros Hc Hg Hl Hn.
-  fix IH 1. intros [c|k rs body|l|b].
+  intros Hc Hg Hd Hsu Hp Hst Hl Hn.
+  fix IH 1. intros [c|k rs body|via rs p body|c|n|p|l|b].
   - apply Hc.
   - apply Hg. induction body as [|x body IHb]; constructor; [apply IH|exact IHb].
+  - apply Hd. induction body as [|x body IHb]; constructor; [apply IH|exact IHb].
+  - apply Hsu.
+  - apply Hp.
+  - apply Hst.
   - apply Hl.
   - apply Hn.
 Qed.
@@ -71,7 +79,7 @@ Proof.
     destruct (run_cmd (sh_nc sh) (sh_k sh) c) as [[s' inside] ex'] eqn:Er.
     intros E. injection E as _ <- _. cbn [sh_k].
     eapply command_restores_lemma; [exact Hs|exact Hb|exact Er|].
-    left. intros Hk. rewrite Hk in Ht. discriminate.
+    left. destruct (c_kind c); try reflexivity; discriminate.
   - (* a compound command with a body *)
     intros k rs body Hbody sh steps sh' ex Hwf Ht. cbn [run_item transient] in *.
     destruct (perform_redirs (sh_nc sh) (sh_k sh) rs []) as [[s1 stack] ok] eqn:Hp.
@@ -86,6 +94,53 @@ Proof.
       destruct exb; intros E; injection E as _ <- _; cbn [sh_k]; split; congruence.
     + intros E. injection E as _ <- _. cbn [sh_k]. unfold same_table. rewrite undo_stderr. split; [exact Hundo|].
       cbn. destruct (stderr_write_tab s1) as [_ ->]. exact El.
+  - (* the . built-in *)
+    intros via rs p body Hbody sh steps sh' ex Hwf Ht. cbn [run_item transient] in *.
+    destruct (perform_redirs (sh_nc sh) (sh_k sh) rs []) as [[s1 stack] ok] eqn:Hp.
+    pose proof Hwf as [Hs Hb].
+    pose proof (undo_restores_lemma _ _ _ _ _ _ Hs Hb Hp) as Hundo.
+    pose proof (perform_redirs_wf _ _ _ _ _ _ _ Hwf Hp) as [Hwf1 El].
+    assert (forall sx, k_tab sx = k_tab s1 -> k_lim sx = k_lim s1 ->
+              same_table (sh_k sh) (undo_redirs sx stack)) as Hback.
+    { intros sx A B. destruct (undo_same_table s1 sx stack (conj A B)) as [C D].
+      split; [rewrite C; exact Hundo|rewrite D; exact El]. }
+    destruct ok.
+    + destruct (open_internal s1 p) as [s2 [fd|]] eqn:Eo;
+        apply open_internal_tab in Eo; try exact Hwf1; destruct Eo as [Hwf2 [El2 Ho]].
+      * destruct Ho as [Hge [Hfresh [id Et2]]].
+        destruct (run_list_with run_item (mkSh s2 (sh_nc sh)) body) as [[ob shb] exb] eqn:Eb.
+        pose proof (run_list_restores body Hbody (mkSh s2 (sh_nc sh)) _ _ _ Hwf2 Ht Eb) as [A B].
+        cbn [sh_k] in A, B.
+        assert (same_table (sh_k sh) (undo_redirs (k_close (sh_k shb) fd) stack)) as Hfin.
+        { apply Hback; cbn; [|congruence].
+          rewrite A, Et2. apply tdel_tset_fresh; [apply Hwf1|exact Hfresh]. }
+        destruct exb; intros E; injection E as _ <- _; exact Hfin.
+      * intros E. injection E as _ <- _. cbn [sh_k].
+        destruct (stderr_write_tab s2) as [A B]. apply Hback; congruence.
+    + intros E. injection E as _ <- _. cbn [sh_k].
+      destruct (stderr_write_tab s1) as [A B]. apply Hback; assumption.
+  - (* a command with a command substitution *)
+    intros c sh steps sh' ex Hwf Ht. cbn [run_item transient] in *.
+    destruct (k_pipe (sh_k sh)) as [s1 [[r w]|er]] eqn:Ep;
+      apply k_pipe_tab in Ep; try exact Hwf; destruct Ep as [Hwf1 [El1 Hpipe]].
+    + destruct Hpipe as [Hne [Hr [Hw [e1 [e2 Et1]]]]].
+      set (s2 := k_close (k_close s1 w) r).
+      assert (same_table (sh_k sh) s2) as H2.
+      { split; [cbn; rewrite Et1; apply close_both; try assumption; apply Hwf|exact El1]. }
+      destruct (run_cmd (sh_nc sh) s2 c) as [[s' inside] ex'] eqn:Er.
+      intros E. injection E as _ <- _. cbn [sh_k].
+      pose proof (same_table_wf _ _ H2 Hwf) as [Hs2 Hb2].
+      eapply same_table_trans; [exact H2|].
+      eapply command_restores_lemma; [exact Hs2|exact Hb2|exact Er|].
+      left. destruct (c_kind c); try reflexivity; discriminate.
+    + intros E. injection E as _ <- _. cbn [sh_k].
+      destruct (stderr_write_tab s1) as [A B]. split; congruence.
+  - (* a pipeline *)
+    intros n sh steps sh' ex [Hs Hb] _. cbn [run_item].
+    destruct (run_pipeline (sh_k sh) n) as [[s' children] ok] eqn:Er.
+    intros E. injection E as _ <- _. cbn [sh_k].
+    exact (pipeline_restores_lemma _ _ _ _ _ Hs Hb Er).
+  - intros p sh steps sh' ex _ Ht. discriminate.
   - intros l sh steps sh' ex _ Ht. discriminate.
   - intros b sh steps sh' ex _ _ E. cbn in E. injection E as _ <- _. split; reflexivity.
 Qed.
